@@ -179,6 +179,12 @@ func c02FsChurn(col *c02Collector, rounds int) {
 				i := (g*7 + k) % n
 				out, err := eng.Render(fmt.Sprintf("t%d", i), map[string]interface{}{"g": g + 1})
 				want := fmt.Sprintf("tpl%d %d!", i, g+1)
+				if err != nil && strings.Contains(err.Error(), "no such file or directory") {
+					// the churning goroutine removed the file between the loader's Stat and its ReadFile: a race between one call
+					// and the file system, which a lone call meets as well — not an interaction between calls, so not C02's business
+					col.hit("fs-churn-file-vanished-under-one-call")
+					continue
+				}
 				if err != nil || out != want {
 					col.violate(c02Violation{Key: "fs-churn-wrong", What: fmt.Sprintf("render of t%d while files of the first search path are replaced: %q (%v), want %q", i, out, err, want),
 						Replay: map[string]any{"kind": "fs-churn", "round": round, "goroutine": g, "got": out, "want": want, "error": fmt.Sprint(err)}})
